@@ -183,10 +183,21 @@ class Program:
                 raise
             except Exception:
                 pass                      # (rename recovery is best effort: without it a renamed anchor is reported as vanished)
+            from . import recover
+            self._ref = recover.Ref(self, parse_normalised)
+            for step in (recover.undo_moves, recover.undo_pull_ups, recover.undo_attribute_renames):
+                try:
+                    step(self, self._ref, self.renamed)
+                except AnalysisError:
+                    raise
+                except Exception:
+                    pass
         for m in self.modules.values():
             self._gate(m, m.rel_to_root)
         for m in self.modules.values():
             self._index_module(m)
+        from . import fold
+        fold.register_program(self)
 
     # ------------------------------------------------------------------ renamed functions
     def _undo_renames(self):
@@ -341,6 +352,12 @@ class Program:
                 same = fnf(cn, hc) == fnf(rn, hr)
             except Exception:
                 same = False
+            if not same:
+                # code moved into a new helper function / a new method of the class (or back): compare with the helpers in place
+                try:
+                    same = self._same_with_helpers(m, rtree, q, cn, rn, hc, hr)
+                except Exception:
+                    same = False
             if same:
                 # the reviewed text may use module-level names (imports, helpers) the current module no longer binds
                 bound = set(dir(__import__("builtins")))
@@ -362,6 +379,35 @@ class Program:
                     continue
                 cbody[ci] = rn
                 m.gated.append(q)
+
+    def _same_with_helpers(self, m, rtree, q, cn, rn, hc, hr):
+        from . import recover
+        from .fnf import fnf
+        ref = self._ref
+
+        def cur_ref(mod):
+            t = ref.tree(mod)
+            cur = self.modules[mod].tree
+            return (cur, cur if t == "same" else t)
+
+        def ref_cur(mod):
+            a, b = cur_ref(mod)
+            return (b, a)
+        fc = recover.private_helpers(self, ref, m, m.tree, rtree, cur_ref)
+        fr = recover.private_helpers(self, ref, m, rtree, m.tree, ref_cur)
+        mc = mr = {}
+        if "." in q:
+            cname = q.split(".")[0]
+            cc, rc = recover.top_classes(m.tree).get(cname), recover.top_classes(rtree).get(cname)
+            if cc is not None and rc is not None:
+                a, b = recover.methods_of(cc), recover.methods_of(rc)
+                mc = {k: v for k, v in a.items() if k not in b}
+                mr = {k: v for k, v in b.items() if k not in a}
+        c2 = recover.with_helpers(cn, fc, mc)
+        r2 = recover.with_helpers(rn, fr, mr)
+        if c2 is None and r2 is None:
+            return False
+        return fnf(c2 or cn, hc) == fnf(r2 or rn, hr)
 
     def _index_module(self, m):
         pkg_of = m.name if m.path.endswith("__init__.py") else m.name.rpartition(".")[0]
